@@ -146,6 +146,8 @@ func (m *c13model) eval(n *Node, ch thunk) []string {
 		return m.eval(kids(0), func() []string { return m.eval(blk, nil) })
 	case "hwflush": // hand-written: templ.Flush given kid 0 as its block, on a writer without Flush
 		return m.eval(kids(0), nil)
+	case "hwtwice": // passes its context (and so its block) on, twice
+		return cat(m.eval(kids(0), ch), m.eval(kids(0), ch))
 	case "shape":
 		return m.evalShape(shapeASTs[n.N%len(shapeASTs)], n, ch, m.nOnce)
 	}
@@ -210,7 +212,7 @@ func (g *c13gen) callee(budget *int, depth int) *Node {
 	t := g.t
 	// templ.Join is never *given* a block: what its elements should then receive is not
 	// defined by the statement (it passes its context on), so that shape is not judged.
-	kinds := []string{"slot", "slot", "slottwice", "noslot", "passdown", "passdowntwice", "slotaround", "hwchildren", "flushcallee", "hwwrapslot", "oncecallee", "hwignore", "raw", "join", "hwforward", "hwnonce", "hwclear", "hwchildrenbuf", "shape", "shape", "shape"}
+	kinds := []string{"slot", "slot", "slottwice", "noslot", "passdown", "passdowntwice", "slotaround", "hwchildren", "flushcallee", "hwwrapslot", "oncecallee", "hwignore", "raw", "join", "hwforward", "hwnonce", "hwclear", "hwchildrenbuf", "shape", "shape", "shape", "hwtwice"}
 	k := kinds[t.Choose(len(kinds), "calleekind")]
 	switch k {
 	case "slot", "slottwice", "noslot", "hwignore", "hwchildrenbuf":
@@ -237,7 +239,7 @@ func (g *c13gen) callee(budget *int, depth int) *Node {
 		return n
 	case "hwforward":
 		return &Node{K: k, Kids: []*Node{g.callee(budget, depth+1), g.node(budget, depth+1)}}
-	case "hwnonce", "hwclear":
+	case "hwnonce", "hwclear", "hwtwice":
 		return &Node{K: k, Kids: []*Node{g.callee(budget, depth+1)}}
 	case "shape":
 		return g.shape(budget, depth)
